@@ -565,11 +565,11 @@ theorem setCurrent_objsWf {m : Mgr} (h : ObjsWf m) (x : Option Nat) : ObjsWf (se
   rw [setCurrent_objs]
   exact objsWf_map_refresh _ h
 
-/-- the calls that only read -/
+/-- the calls that only read (and `SetDefaultUnitSystemClass`, which changes nothing that is modelled) -/
 def Op.isQuery : Op → Bool
   | .getDefaultUnit .. | .sysEq .. | .convertToCurrent .. | .convertScalarToCurrent ..
   | .getCategoryDefaultUnit .. | .getQuantityDefaultUnit .. | .getNewId | .getById .. | .getUnitSystems
-  | .getCurrent | .sysEqOther .. => true
+  | .getCurrent | .sysEqOther .. | .setSystemClass .. => true
   | _ => false
 
 /-- a reading call changes nothing and notifies nobody -/
